@@ -229,7 +229,7 @@ Next == x' = x
                 compare('_tsc_scatter', kind, shape, box, ms, wl, o, g, base=base, info='accumulate')
                 for coord in range(3):
                     n1d = shape[coord]
-                    for nthread, nparts in ((1, None), (2, None), (4, None), (3, 2), (16, None), (2, max(2, 2 * (n1d // 6)))):
+                    for nthread, nparts in ((1, None), (2, None), (4, None), (3, 2), (16, None), (2, max(2, 2 * (n1d // 6))), (1, 3), (1, 1), (1, 5 + 2 * (rep % 3)), (1, 2 * (1 + rep % 4))):   # one thread accepts any stripe count, odd ones too
                         try:
                             g2 = supplied(pos.copy(), base.copy(), box, weights=None if w is None else w.copy(), nthread=nthread, npartition=nparts,
                                               coord=coord, sort=bool((rep // 2) % 2), offset=off)
